@@ -11178,6 +11178,13 @@ class Main_Program0(BlockBase):
         # symbol table. We include a ':' so that it is not a valid Fortran
         # name and therefore cannot clash with any routine names.
         table_name = "fparser2:main_program"
+        # A table of this name may already exist (from an earlier parse), in
+        # which case it is re-used and must not be deleted if the match fails.
+        try:
+            SYMBOL_TABLES.lookup(table_name)
+            new_table = False
+        except KeyError:
+            new_table = True
         SYMBOL_TABLES.enter_scope(table_name)
 
         result = None
@@ -11190,7 +11197,7 @@ class Main_Program0(BlockBase):
             )
         finally:
             SYMBOL_TABLES.exit_scope()
-            if not result:
+            if not result and new_table:
                 # The match failed so remove the associated symbol table
                 SYMBOL_TABLES.remove(table_name)
 
